@@ -12,6 +12,6 @@ if sub and not any(str(c).startswith("sub-agent") for c in m["confirmed"]):
 m["confirmed"] = [c for c in m["confirmed"] if not str(c).startswith("main:")] + ["main: " + conf]
 m["caught_by"] = caught_by
 m["initially_missed"] = missed
-m["source"] = "independent sub-agent (fourth wave: given the property text and the mechanisms of the three earlier seeds, asked for a different one)"
+m["source"] = os.environ.get("SEED_SOURCE", "independent sub-agent (fifth wave: given the property text and the mechanisms of the four earlier seeds, asked for a different one)")
 json.dump(m, open(p, "w"), indent=1)
 print("recorded", name)
